@@ -174,5 +174,102 @@ func TestGovcReplayIsValidNatModN(t *testing.T) {
 `
 		return runOverlayTest(rep, "pkg/math/arith", "zz_govc_replay_validator_test.go", src, "TestGovcReplayIsValidNatModN")
 	}
+	switch ob.Fn {
+	case "pkg/paillier:(*Ciphertext).Add", "pkg/paillier:(*Ciphertext).Mul", "pkg/paillier:(Ciphertext).Clone":
+		src := `package paillier
+
+import (
+	"math/big"
+	"testing"
+
+	"github.com/cronokirby/saferith"
+)
+
+// ciphertext operations against big-integer arithmetic: product mod N^2, signed power mod N^2, copy
+func TestGovcReplayCiphertextOps(t *testing.T) {
+	n := new(saferith.Nat).SetUint64(3233) // 61 * 53: any odd modulus serves the value-level identities
+	pk := NewPublicKey(saferith.ModulusFromNat(n))
+	nn := big.NewInt(3233 * 3233)
+	for _, x := range []int64{1, 2, 3234, 10452288, 5000000} {
+		for _, y := range []int64{1, 7, 3234, 10452287, 61} {
+			a := &Ciphertext{c: new(saferith.Nat).SetUint64(uint64(x))}
+			b := &Ciphertext{c: new(saferith.Nat).SetUint64(uint64(y))}
+			cl := a.Clone()
+			if cl.c.Big().Int64() != x {
+				t.Fatalf("Clone(%d) = %v", x, cl.c.Big())
+			}
+			a.Add(pk, b)
+			want := new(big.Int).Mod(new(big.Int).Mul(big.NewInt(x), big.NewInt(y)), nn)
+			if a.c.Big().Cmp(want) != 0 {
+				t.Fatalf("Add: %d (+) %d = %v, the product mod N^2 is %v", x, y, a.c.Big(), want)
+			}
+		}
+		for _, k := range []int64{0, 1, 2, 5, -1, -3} {
+			xb := big.NewInt(x)
+			if new(big.Int).GCD(nil, nil, xb, nn).Cmp(big.NewInt(1)) != 0 {
+				continue
+			}
+			c := &Ciphertext{c: new(saferith.Nat).SetUint64(uint64(x))}
+			c.Mul(pk, new(saferith.Int).SetBig(big.NewInt(k), 8))
+			base := xb
+			e := big.NewInt(k)
+			if k < 0 {
+				base = new(big.Int).ModInverse(xb, nn)
+				e = big.NewInt(-k)
+			}
+			want := new(big.Int).Exp(base, e, nn)
+			if c.c.Big().Cmp(want) != 0 {
+				t.Fatalf("Mul: %d (.) %d = %v, the power mod N^2 is %v", k, x, c.c.Big(), want)
+			}
+		}
+	}
+}
+`
+		return runOverlayTest(rep, "pkg/paillier", "zz_govc_replay_validator_test.go", src, "TestGovcReplayCiphertextOps")
+	case "internal/mta:newMta":
+		src := `package mta
+
+import (
+	"crypto/rand"
+	"math/big"
+	"testing"
+
+	"github.com/cronokirby/saferith"
+	"github.com/taurusgroup/multi-party-sig/pkg/math/sample"
+	"github.com/taurusgroup/multi-party-sig/pkg/paillier"
+	"github.com/taurusgroup/multi-party-sig/pkg/pool"
+)
+
+// the conversion end to end on real keys: the receiver's decryption of D and the sender's beta add up to a*b
+func TestGovcReplayMtA(t *testing.T) {
+	pl := pool.NewPool(0)
+	defer pl.TearDown()
+	sender := paillier.NewSecretKey(pl)
+	receiver := paillier.NewSecretKey(pl)
+	q, _ := new(big.Int).SetString("fffffffffffffffffffffffffffffffebaaedce6af48a03bbfd25e8cd0364141", 16)
+	for _, ab := range [][2]*big.Int{{big.NewInt(0), big.NewInt(5)}, {big.NewInt(1), big.NewInt(1)}, {big.NewInt(7), big.NewInt(0)},
+		{new(big.Int).Sub(q, big.NewInt(1)), new(big.Int).Sub(q, big.NewInt(1))}, {big.NewInt(-3), big.NewInt(4)},
+		{sample.IntervalL(rand.Reader).Big(), sample.IntervalL(rand.Reader).Big()}} {
+		a := new(saferith.Int).SetBig(ab[0], 257)
+		b := new(saferith.Int).SetBig(ab[1], 257)
+		B, _ := receiver.Enc(b)
+		D, F, _, _, betaNeg := newMta(a, B, sender, receiver.PublicKey)
+		alpha, err := receiver.Dec(D)
+		if err != nil {
+			t.Fatalf("D does not decrypt: %v", err)
+		}
+		sum := new(big.Int).Sub(alpha.Big(), betaNeg.Big()) // alpha + beta
+		if want := new(big.Int).Mul(ab[0], ab[1]); sum.Cmp(want) != 0 {
+			t.Fatalf("a=%v b=%v: alpha + beta = %v, a*b = %v", ab[0], ab[1], sum, want)
+		}
+		fb, err := sender.Dec(F)
+		if err != nil || fb.Big().Cmp(betaNeg.Big()) != 0 {
+			t.Fatalf("F does not carry -beta under the sender's key: %v %v", fb, err)
+		}
+	}
+}
+`
+		return runOverlayTest(rep, "internal/mta", "zz_govc_replay_validator_test.go", src, "TestGovcReplayMtA")
+	}
 	return false, ""
 }
